@@ -627,8 +627,13 @@ class AgentExecutingComponent(rpu.AgentComponent):
         for cmd in ru.as_list(launcher.get_launch_cmds(task, exec_path)):
             ret += '  %s \\\n' % cmd
 
-        ret += ') 1> %s \\\n  2> %s\n' % (task['stdout_file_short'],
-                                          task['stderr_file_short'])
+        if task['stdout_file_short'] == task['stderr_file_short']:
+            # one file for both streams: share one file offset, else the
+            # streams overwrite each other
+            ret += ') 1> %s \\\n  2>&1\n' % task['stdout_file_short']
+        else:
+            ret += ') 1> %s \\\n  2> %s\n' % (task['stdout_file_short'],
+                                              task['stderr_file_short'])
         # collect PID for launch-script
         ret += 'RP_RET=$?\n'
         ret += 'RP_LAUNCH_PID=$$\n'
